@@ -114,7 +114,7 @@ SHORT = {   # family -> tier -> (atoms, n)
     "date": {"quick": (list("012-W"), 7), "thorough": (list("012-W"), 8)},
     "time": {"quick": (list("0126: "), 5), "thorough": (list("0126: "), 7)},
     "idn-hostname": {"quick": (list("a-.xn1") + ["。", "\xdf", "‍", "٠", "A", "́"], 4),
-                     "thorough": (list("a-.xn1 ") + ["。", "\xdf", "‍", "٠", "A", "́", "\x00"], 5)},
+                     "thorough": (list("a-.xn1") + ["。", "\xdf", "‍", "٠", "A", "́"], 5)},
 }
 
 WIDE = list("019af.:-+/%@ \n\tTWZ_x{}\\(") + [FW1, AI3, "\x00", "\xe9"]
@@ -248,7 +248,7 @@ def iter_edit2(fam, tier, bucket):
     taken = _P["sets"][fam]
     mine = set()
     for seed in seeds_of(fam):
-        if len(seed) > 26:
+        if len(seed) > 20:
             continue
         for s1 in set(edits(seed, NARROW)):
             for s2 in edits(s1, NARROW):
